@@ -215,6 +215,8 @@ class SK(object):
                 return BUILTINS['deepcopy']
             if imp[1] in ('functools.reduce',):
                 raise Unsupported('functools.reduce')
+            if imp[1] in ('bisect.bisect_left', 'bisect.bisect_right', 'bisect.bisect'):
+                return BUILTINS[imp[1].split('.')[1]]
             return ModRef('ext:' + imp[1])
         if imp and imp[0] == 'obj':
             if (imp[1], imp[2]) in self.m.classes:
@@ -246,6 +248,8 @@ class SK(object):
         if isinstance(b, ModRef):
             if b.name == 'ext:copy' and e.attr == 'deepcopy':
                 return BUILTINS['deepcopy']
+            if b.name == 'ext:bisect' and e.attr in ('bisect_left', 'bisect_right', 'bisect'):
+                return BUILTINS[e.attr]
             if b.name == 'ext:math':
                 return Py(lambda sk, node, *a: math_fn(e.attr, *a), 'math.' + e.attr)
             if b.name.startswith('ext:'):
@@ -259,6 +263,9 @@ class SK(object):
                 fi = self.m.lookup(cls, e.attr, 'methods')
                 if fi is not None:
                     return FnRef(fi, bound=b)
+                g = self.m.lookup(cls, e.attr, 'getters')
+                if g is not None:
+                    return self.call(g, [b], {})          # property read
             raise Violation('SK2', 'attribute %s of %s read before it is set' % (e.attr, b._cls), e)
         if isinstance(b, SuperRef):
             fi = self.m.lookup(b.obj._cls, e.attr, 'methods', after=b.after)
@@ -545,7 +552,11 @@ class SK(object):
         elif isinstance(t, ast.Attribute):
             b = self.ev(t.value, env)
             if isinstance(b, Bag):
-                b._a[t.attr] = v
+                st_ = self.m.lookup(b._cls, t.attr, 'setters') if isinstance(b._cls, tuple) and t.attr not in b._a else None
+                if st_ is not None:
+                    self.call(st_, [b, v], {})              # property write
+                else:
+                    b._a[t.attr] = v
             else:
                 raise Unsupported('attribute store on %s' % type(b).__name__)
         else:
@@ -721,6 +732,28 @@ BUILTINS = {
     'ValueError': Py(lambda sk, n, *a, **k: ('exc', 'ValueError'), 'exc'), 'GeomdlException': Py(lambda sk, n, *a, **k: ('exc', 'GeomdlException'), 'exc'),
     'TypeError': Py(lambda sk, n, *a, **k: ('exc', 'TypeError'), 'exc'),
 }
+
+
+def _bisect(right):
+    """bisect on a sorted list of ordered abstractions (or numbers): decided by rank"""
+    def g(sk, n, a, x, lo=0, hi=None):
+        def key(v):
+            if isinstance(v, Ord):
+                return v.rank
+            if isinstance(v, Tok):
+                raise Unsupported('bisect over abstract floats without an order')
+            return v
+        import bisect as _b
+        keys = [key(v) for v in a]
+        hi = len(keys) if hi is None else hi
+        return (_b.bisect_right if right else _b.bisect_left)(keys, key(x), lo, hi)
+    return g
+
+
+BUILTINS['callable'] = Py(lambda sk, n, x: isinstance(x, (Py, FnRef)) or (isinstance(x, tuple) and x and x[0] == 'class'), 'callable')
+BUILTINS['bisect_left'] = Py(_bisect(False), 'bisect_left')
+BUILTINS['bisect_right'] = Py(_bisect(True), 'bisect_right')
+BUILTINS['bisect'] = Py(_bisect(True), 'bisect')
 
 
 def _len(sk, n, x):
